@@ -683,7 +683,7 @@ def sec_missing(rep, tier):
                                     out.append((f"asymptotic kernel {i}: weight[{pid}]", k.partons[pid], w[pid]))
                         return out
 
-                    rep.check(f"C08/missing/weights/{kind}/nf={nf}/ihq={ihq}/pto_evol={pto_evol}", case, sy, [sy.x > 0, sy.x < 1, sy.Q2 > 0] + sy.mass_pre())
+                    rep.check(f"C08/missing/weights/{kind}/nf={nf}/ihq={ihq}/pto_evol={pto_evol}", case, sy, [sy.x > 0, sy.x <= 1, sy.Q2 > 0] + sy.mass_pre())
 
 
 SMALL_Z = (1e-4, 1e-3)
@@ -787,7 +787,7 @@ def sec_weights(rep, tier):
                                         out.append((f"{fam}: the weights of massive kernel {nm} are carried by an asymptotic kernel", key in a_keys, True))
                         return out
 
-                    rep.check(f"C08/weights/{process}/{kind}/nf={nf}/ihq={ihq}", case, sy, [sy.x > 0, sy.x < 1, sy.Q2 > 0] + sy.mass_pre())
+                    rep.check(f"C08/weights/{process}/{kind}/nf={nf}/ihq={ihq}", case, sy, [sy.x > 0, sy.x <= 1, sy.Q2 > 0] + sy.mass_pre())
 
 
 def sec_selfcheck(rep):
